@@ -97,6 +97,7 @@ type StreamObs struct {
 	Resp   *hx.Resp
 	PL     *m3u8x.Playlist
 	Parked bool
+	Delta  *m3u8x.Playlist // Low-Latency, Options.Delta: the _HLS_skip=YES form fetched right after PL
 }
 
 // Round is one observation round.
@@ -106,6 +107,8 @@ type Round struct {
 	WriteErr  string
 	Rotated   []string // rotation hooks seen during the write
 	MV        *StreamObs
+	MVAlt     *hx.Resp // Options.AltQuery: index.m3u8 asked again, by "another viewer", with AltQuery
+	AltQuery  string
 	Streams   map[string]*StreamObs
 	DirFiles  []string
 	PathCount int
@@ -144,7 +147,9 @@ type Options struct {
 	Light          bool
 	NoFetch        bool // playlists only
 	StopOnWriteErr bool
-	RoundEvery     int // observe every n-th write (default 1)
+	RoundEvery     int  // observe every n-th write (default 1)
+	Delta          bool // Low-Latency: also fetch the delta update of every media playlist
+	AltQuery       bool // ask for index.m3u8 a second time with another query string (another viewer)
 }
 
 func streamIDs(c *media.Case) ([]string, []string) {
@@ -399,6 +404,18 @@ func (h *History) Observe(wi int, werr error, o Options) *Round {
 			r.MV.PL = m3u8x.Parse(r.MV.Resp.Body)
 		}
 	}
+	if o.AltQuery && r.MV.Resp != nil && r.MV.Resp.OK() {
+		// another viewer, between the same two writes: its own token, or none at all
+		r.AltQuery = []string{"viewer=bob", "", "t=9&u=x%20y"}[r.N%3]
+		if r.AltQuery == "" && h.Case.Query == "" {
+			r.AltQuery = "viewer=carol"
+		}
+		name := "index.m3u8"
+		if r.AltQuery != "" {
+			name += "?" + r.AltQuery
+		}
+		r.MVAlt = h.GetNow(name)
+	}
 	for _, id := range h.StreamIDs {
 		name := id + "_stream.m3u8"
 		so := h.fetchPlaylist(name, rot)
@@ -413,6 +430,15 @@ func (h *History) Observe(wi int, werr error, o Options) *Round {
 			continue
 		}
 		so.PL = m3u8x.Parse(so.Resp.Body)
+		if o.Delta && h.Case.Cfg.Variant == media.VarLL && so.PL.Media != nil {
+			dn := name + "?_HLS_skip=YES"
+			if h.Case.Query != "" {
+				dn = name + "?" + h.Case.Query + "&_HLS_skip=YES"
+			}
+			if dr := h.GetNow(dn); dr != nil && dr.OK() {
+				so.Delta = m3u8x.Parse(dr.Body)
+			}
+		}
 		if so.PL.Media == nil || o.NoFetch {
 			continue
 		}
